@@ -94,7 +94,7 @@ def sh(cmd, timeout=None, cwd=None, env=None, mem_gb=None, cancel=None):
 
 
 def _pid_alive(path):
-    m = re.search(r'smt2_dec_problem_(\d+)\.', os.path.basename(path))
+    m = re.search(r'smt2_dec_\w+?_(\d+)\.', os.path.basename(path))
     if not m:
         return False
     try:
@@ -377,7 +377,7 @@ def run_cbmc(u, harness, hdefs, unwind, unwindset, safety, timeout, witness=Fals
     rc, o, e, w, _ = sh(cmd, timeout=timeout, mem_gb=mem_gb, cancel=cancel, env=dict(os.environ, TMPDIR=tmpd))
     if rc in (-8, -9):
         import glob
-        for f in glob.glob(os.path.join(tmpd, 'smt2_dec_problem_*')):
+        for f in glob.glob(os.path.join(tmpd, 'smt2_dec_*')):
             try:
                 if time.time() - os.path.getmtime(f) > 5 and not _pid_alive(f):
                     os.remove(f)
